@@ -21,3 +21,8 @@ uint32_t vp_c12_dom_nattrs(char *el) { struct dnode *n = DN(el); return n ? n->n
    whenever the block pointer is an if-then-else of several blocks. */
 void _ZN7QStringD2Ev(char *self) { }
 void _ZN7QStringD1Ev(char *self) { }
+/* QString::startsWith / endsWith (QString overloads; libQt5Core) in terms of the QStringView models of qt_core.c */
+uint8_t _ZNK7QString10startsWithERKS_N2Qt15CaseSensitivityE(char *self, char *o, uint32_t cs) { QAD *a = *(QAD**)self, *b = *(QAD**)o;
+  return _ZN9QtPrivate10startsWithE11QStringViewS0_N2Qt15CaseSensitivityE(a->f1, (char*)qs_chars(a), b->f1, (char*)qs_chars(b), cs); }
+uint8_t _ZNK7QString8endsWithERKS_N2Qt15CaseSensitivityE(char *self, char *o, uint32_t cs) { QAD *a = *(QAD**)self, *b = *(QAD**)o;
+  return _ZN9QtPrivate8endsWithE11QStringViewS0_N2Qt15CaseSensitivityE(a->f1, (char*)qs_chars(a), b->f1, (char*)qs_chars(b), cs); }
